@@ -16,6 +16,7 @@ THEOREMS = {
     'C10_located': 'located: every syntax error reported or raised carries a line number l with 1 <= l <= 1 + number of line breaks of the text',
     'C10_modes': 'modes: continue mode raises nothing (but the BibTeXError of Person()); strict mode ends exactly like continue mode when nothing was reported, else raises the first reported problem',
     'C10_prefix_stable': 'confined_before: entries, preamble and problems present after the first k commands are initial segments of those of the complete run (only ever appended)',
+    'C10_confined_step': 'confined: every command, malformed or not, appends at most one entry and one preamble item to what was read before it and changes nothing else in these lists (a malformed entry leaves at most one partial entry)',
     'C10_confined_lone_at_neg': 'confined_after also fails for a malformed command that is a lone "@": "@" is in NAME_CHARS, the next command is read as an entry of type "@misc" and nothing is reported (kernel-evaluated witness) - NEW finding, the restricted C10_confined_partial of DESIGN.md is false as stated',
     'C10_confined_neg': 'confined_after fails with an "@" inside the malformed entry: witness evaluated in the kernel (bogus entry shadows a later real one) - known finding C10-at-inside-malformed-entry',
 }
@@ -286,7 +287,7 @@ LEVEL_TEXT = ('Machine-checked proofs (Lean 4) about the function-by-function mo
               'split_tex_string keeps the brace skeleton); every syntax error carries a line of the text (C10_located, invariant: line counter + '
               'line breaks of the unread rest = 1 + line breaks of the text); strict reading = continue-mode reading cut at the first reported '
               'problem, same database when there is none (C10_modes, simulation of the two runs); what was read after k commands is only ever '
-              'extended (C10_prefix_stable). Confinement AFTER a malformed entry is refuted on two kernel-evaluated witnesses: an "@" inside the '
+              'extended (C10_prefix_stable), by at most one entry and one preamble item per command, malformed or not (C10_confined_step). Confinement AFTER a malformed entry is refuted on two kernel-evaluated witnesses: an "@" inside the '
               'entry (C10_confined_neg, known finding) and a lone "@" that swallows the "@" of the next command (C10_confined_lone_at_neg, new); '
               'a positive restricted form is NOT proved - it is covered by the differential oracle only.')
 LEVEL_NOTE = ('Trusted: Lean kernel; axioms propext/Classical.choice/Quot.sound at most; the hand-written model corresponds to pybtex only as far as '
